@@ -782,3 +782,261 @@ func (p *Program) ruleCollectionWithin(c *Check) {
 	}
 	c.Floor("E10.within", n, 4, "Within* methods of collection")
 }
+
+// ---- ∃-scans of collection: Intersects*, and the per-piece loops of Contains / Intersects ----
+
+// searchLits: the function literals handed to collection.Search in fn (and in
+// same-package helpers it calls), outermost first.
+func (p *Program) searchLits(fn *types.Func, search *types.Func) []*ast.FuncLit {
+	var out []*ast.FuncLit
+	seen := map[*types.Func]bool{}
+	var find func(f *types.Func, depth int)
+	find = func(f *types.Func, depth int) {
+		fd, pkg := p.Decl(f), p.DeclPkg(f)
+		if fd == nil || fd.Body == nil || seen[f] || depth > 2 {
+			return
+		}
+		seen[f] = true
+		ast.Inspect(fd.Body, func(nd ast.Node) bool {
+			call, ok := nd.(*ast.CallExpr)
+			if !ok {
+				return true
+			}
+			callee, _ := typeutil.Callee(pkg.TypesInfo, call).(*types.Func)
+			if callee == search {
+				for _, ar := range call.Args {
+					if l, ok := ast.Unparen(ar).(*ast.FuncLit); ok {
+						out = append(out, l)
+					}
+				}
+			} else if callee != nil && callee.Pkg() == fn.Pkg() && callee != f {
+				find(callee, depth+1)
+			}
+			return true
+		})
+	}
+	find(fn, 0)
+	return out
+}
+
+// litRun: run a function literal with its parameters as inputs q0, q1, …
+func litRun(pkg *packages.Package, lit *ast.FuncLit) func(in *e8interp) *e8out {
+	return func(in *e8interp) *e8out {
+		fr := newFrame(pkg)
+		i := 0
+		for _, f := range lit.Type.Params.List {
+			for _, nm := range f.Names {
+				if o := pkg.TypesInfo.Defs[nm]; o != nil {
+					fr.vars[o] = in.newInput(fmt.Sprintf("q%d", i), o.Type())
+				}
+				i++
+			}
+		}
+		out := &e8out{fr: fr}
+		if r := in.runBody(fr, lit.Body.List); r != nil {
+			out.returned, out.ret = true, r.vals
+		}
+		return out
+	}
+}
+
+// flagAfter: the value of the captured boolean that the literal assigns (nil if none was assigned).
+func flagAfter(out *e8out, lit *ast.FuncLit) (name string, v *val) {
+	for o, x := range out.fr.vars {
+		if o == nil || x == nil {
+			continue
+		}
+		if bt, ok := o.Type().Underlying().(*types.Basic); ok && bt.Kind() == types.Bool && !(lit.Pos() <= o.Pos() && o.Pos() < lit.End()) {
+			if x.k == kBool && x.name == "" {
+				return o.Name(), x
+			}
+		}
+	}
+	return "", nil
+}
+
+func (p *Program) ruleCollectionExists(c *Check) {
+	search := p.Method("geojson", "collection", "Search")
+	empty := p.Method("geojson", "collection", "Empty")
+	if search == nil || empty == nil {
+		c.Undecided("E10.exists", "anchor:(*geojson.collection).Search", "", "not found")
+		return
+	}
+	opq := map[*types.Func]bool{search: true, empty: true}
+	geomOpaque := map[*types.Package]bool{p.Geom.Types: true}
+	n := 0
+	for _, m := range []string{"IntersectsPoint", "IntersectsRect", "IntersectsLine", "IntersectsPoly"} {
+		fn := p.Method("geojson", "collection", m)
+		fd, pkg := p.Decl(fn), p.DeclPkg(fn)
+		name := "(*geojson.collection)." + m
+		if fd == nil {
+			c.Undecided("E10.exists", name, "", "method not found")
+			continue
+		}
+		n++
+		method := m
+		p.runE8(c, &e8row{id: name + "#result", fn: fn, havoc: true, opaque: opq, opaquePkg: geomOpaque,
+			what: "true exactly when the search callback found a child that intersects the operand; the children are searched once, with the operand's rectangle",
+			spec: func(a *e8assign, nm *e8names, out *e8out) string {
+				got, ok := retBool(out)
+				if !ok {
+					return "no boolean result"
+				}
+				calls := out.in.called("Search")
+				if len(calls) == 0 {
+					if got {
+						return "reports an intersection without looking at any child"
+					}
+					return "" // an early rejection is not judged here
+				}
+				if len(calls) != 1 {
+					return fmt.Sprintf("the children are searched %d times (expected once)", len(calls))
+				}
+				if len(calls[0].args) < 2 || calls[0].args[1] == nil || !(calls[0].args[1].name == "p0" || strings.HasPrefix(calls[0].args[1].name, "Rect(p0")) {
+					return "the search rectangle is not the operand's rectangle"
+				}
+				var flag string
+				for _, b := range nm.bools {
+					if strings.HasSuffix(b, "'") {
+						flag = b
+					}
+				}
+				if flag == "" {
+					return "the result does not depend on what the search callback found"
+				}
+				if got != a.B(flag) {
+					return fmt.Sprintf("returns %v although the callback's verdict is %v", got, a.B(flag))
+				}
+				return ""
+			}})
+		lits := p.searchLits(fn, search)
+		if len(lits) == 0 {
+			c.Undecided("E10.exists", name+"#step", p.declPos(fn), "the callback handed to Search was not found")
+			continue
+		}
+		lit := lits[0]
+		p.runE8(c, &e8row{id: name + "#step", fn: fn, run: litRun(pkg, lit),
+			what: "per reported child: the verdict becomes true when the child " + method + " the operand; otherwise nothing changes and the search continues",
+			spec: func(a *e8assign, nm *e8names, out *e8out) string {
+				var w []string
+				for _, b := range nm.bools {
+					if strings.Contains(b, "(") {
+						w = append(w, b)
+					}
+				}
+				if len(w) != 1 {
+					return fmt.Sprintf("the callback consults %d verdicts about the child (expected exactly one)", len(w))
+				}
+				if !strings.HasPrefix(w[0], method+"(") || !strings.Contains(w[0], "q0") {
+					return "the verdict asked is not " + method + " of the reported child: " + w[0]
+				}
+				got, ok := retBool(out)
+				if !ok {
+					return "the callback does not return a boolean"
+				}
+				_, fv := flagAfter(out, lit)
+				if a.B(w[0]) {
+					if fv == nil || !fv.b {
+						return "an intersecting child does not set the verdict"
+					}
+				} else {
+					if fv != nil {
+						return "a child that does not intersect changes the verdict"
+					}
+					if !got {
+						return "the search stops at a child that does not intersect: later children are never asked"
+					}
+				}
+				return ""
+			}})
+	}
+	// the object-level predicates: one search per non-empty piece of the operand
+	for _, m := range []string{"Contains", "Intersects"} {
+		fn := p.Method("geojson", "collection", m)
+		fd, pkg := p.Decl(fn), p.DeclPkg(fn)
+		name := "(*geojson.collection)." + m
+		if fd == nil {
+			c.Undecided("E10.exists", name, "", "method not found")
+			continue
+		}
+		n++
+		info := pkg.TypesInfo
+		method := m
+		// the literal handed to ForEach
+		var pieceLit *ast.FuncLit
+		ast.Inspect(fd.Body, func(nd ast.Node) bool {
+			call, ok := nd.(*ast.CallExpr)
+			if !ok || pieceLit != nil {
+				return true
+			}
+			if sel, ok := ast.Unparen(call.Fun).(*ast.SelectorExpr); ok && sel.Sel.Name == "ForEach" {
+				for _, ar := range call.Args {
+					if l, ok := ast.Unparen(ar).(*ast.FuncLit); ok {
+						pieceLit = l
+					}
+				}
+			}
+			return true
+		})
+		if pieceLit == nil {
+			c.Undecided("E10.exists", name+"#piece", p.declPos(fn), "the per-piece callback (handed to ForEach) was not found")
+			continue
+		}
+		_ = info
+		pl := pieceLit
+		row := &e8row{id: name + "#piece", fn: fn, havoc: true, opaque: opq, opaquePkg: geomOpaque,
+			what: "per piece of the operand: an empty piece is skipped; every other piece is searched for exactly once, with its own rectangle, whatever happened to earlier pieces",
+			spec: func(a *e8assign, nm *e8names, out *e8out) string {
+				eName := ""
+				for _, b := range nm.bools {
+					if strings.HasPrefix(b, "Empty(q0") {
+						eName = b
+					}
+				}
+				if eName == "" {
+					return "the piece's emptiness is not consulted"
+				}
+				calls := out.in.called("Search")
+				got, ok := retBool(out)
+				if !ok {
+					return "the callback does not return a boolean"
+				}
+				if a.B(eName) {
+					if len(calls) != 0 || !got {
+						return "an empty piece is not simply skipped"
+					}
+					return ""
+				}
+				if len(calls) != 1 {
+					return fmt.Sprintf("a non-empty piece is searched for %d times (expected exactly once: the answer for a piece must not depend on earlier pieces)", len(calls))
+				}
+				if len(calls[0].args) < 2 || calls[0].args[1] == nil || !strings.HasPrefix(calls[0].args[1].name, "Rect(q0") {
+					return "the search rectangle is not the piece's own rectangle"
+				}
+				var flag string
+				for _, b := range nm.bools {
+					if strings.HasSuffix(b, "'") {
+						flag = b
+					}
+				}
+				if flag == "" {
+					return "what the search found is not consulted"
+				}
+				found := a.B(flag)
+				if method == "Contains" {
+					// a piece no child contains ends the scan with the answer false; otherwise the scan goes on
+					if got != found {
+						return fmt.Sprintf("the scan %s although the piece is contained=%v", map[bool]string{true: "continues", false: "stops"}[got], found)
+					}
+				} else {
+					if got == found {
+						return fmt.Sprintf("the scan %s although an intersection was found=%v", map[bool]string{true: "continues", false: "stops"}[got], found)
+					}
+				}
+				return ""
+			}}
+		row.run = func(in *e8interp) *e8out { return litRun(pkg, pl)(in) }
+		p.runE8(c, row)
+	}
+	c.Floor("E10.exists", n, 6, "∃-scans of collection")
+}
